@@ -28,6 +28,9 @@ type shutSpec struct {
 	// ("readerrA"): whatever Shutdown on A returns then, nil must still mean "delivered".
 	Interrupted    string
 	InterruptAfter time.Duration
+	// KillShutdown: the first n packets from A carrying SHUTDOWN are lost (a loss burst on the
+	// shutdown chunk itself: it is retransmitted until it gets through)
+	KillShutdown int
 }
 
 func shutScenario(spec *shutSpec) *Scenario {
@@ -36,7 +39,21 @@ func shutScenario(spec *shutSpec) *Scenario {
 		Horizon: 900 * time.Second,
 		Setup: func(m *Sim) {
 			m.W.faults = spec.Faults
-			if spec.Interrupted != "" {
+			if spec.KillShutdown > 0 {
+				n := 0
+				m.W.killFn = func(p *wpkt) bool {
+					if p.dec == nil || p.from != 0 {
+						return false
+					}
+					for _, c := range p.dec.Chunks {
+						if c.Typ == wSHUTDOWN && n < spec.KillShutdown {
+							n++
+							return true
+						}
+					}
+					return false
+				}
+			} else if spec.Interrupted != "" {
 				m.W.killFn = func(p *wpkt) bool {
 					if p.dec == nil || p.from != 0 {
 						return false
@@ -285,6 +302,14 @@ func propC08(j *Job) {
 						j.Explore(fmt.Sprintf("S/%s/m%d/x%d/bdata%v/late%v", mode.Name, len(sizes), crossed, bdata, late), shutScenario(spec), Budget{K: k}, nil)
 						if j.capped() {
 							return
+						}
+						if !bdata && !late && crossed == 0 && si == 1 {
+							ks := *spec
+							ks.KillShutdown = 7
+							j.Explore(fmt.Sprintf("S/%s/m%d/shutdown-lost7", mode.Name, len(sizes)), shutScenario(&ks), Budget{K: 0}, nil)
+							if j.capped() {
+								return
+							}
 						}
 						if !bdata && !late && crossed == 0 && si > 0 {
 							for _, ev := range []string{"abortB", "readerrA", "closeB"} {
